@@ -326,6 +326,10 @@ def make_storage(kind, tmpdir, tag):
             _config_section(parts[1], os.path.join(tmpdir, '%s-changes.fs' % tag), 'changes')))
         return st, st.base
 
+    if kind == 'demo2':
+        # a pushed layer: DemoStorage(base=DemoStorage(base=Mapping, changes=Mapping), changes=Mapping)
+        lower = DemoStorage(base=MappingStorage('bottom'), changes=MappingStorage('middle'))
+        return lower.push(), lower
     if kind == 'mvccmapping':
         # the bundled natively-MVCC storage: the DB uses it WITHOUT the MVCC adapter, one instance per
         # connection (shared data, shared commit lock)
@@ -365,6 +369,11 @@ def errname(e):
     if isinstance(e, P.ReadOnlyError):
         return 'err:ReadOnly'
     return 'err:Other(%s)' % type(e).__name__
+
+
+def raise_txn_error(st, txn):
+    from ZODB.POSException import StorageTransactionError
+    raise StorageTransactionError(st, txn)
 
 
 class StorageRunner:
@@ -427,14 +436,26 @@ class StorageRunner:
                 from ZODB.Connection import TransactionMetaData
                 txn = TransactionMetaData()
                 cid, args, tree = parse_rec(tk[3])
-                self.base.tpc_begin(txn, p64(int(tk[1])))
+                target_ = self.base.base if (self.kind == 'demo2' and getattr(self, 'nbase', 0) == 0) else self.base
+                target_.tpc_begin(txn, p64(int(tk[1])))
                 data = make_pickle(cid, args, tree)
                 if self.kind.startswith('hex:'):
                     from binascii import hexlify
                     data = b'.h' + hexlify(data)
-                self.base.store(p64(int(tk[2])), p64(0), data, '', txn)
-                self.base.tpc_vote(txn)
-                self.base.tpc_finish(txn)
+                serial = p64(0)
+                target = self.base
+                self.nbase = getattr(self, 'nbase', 0) + 1
+                if self.kind == 'demo2' and self.nbase == 1:
+                    target = self.base.base         # the first base revision lives in the bottom layer
+                elif self.kind == 'demo2':
+                    # the lower DemoStorage checks serials: pass what it currently holds
+                    try:
+                        serial = self.base.getTid(p64(int(tk[2])))
+                    except Exception:
+                        pass
+                target.store(p64(int(tk[2])), serial, data, '', txn)
+                target.tpc_vote(txn)
+                target.tpc_finish(txn)
                 r = 'ok'
             elif o == 'begin':
                 t, tid = int(tk[1]), int(tk[2])
@@ -474,6 +495,15 @@ class StorageRunner:
                     r = errname(e) + (' ' + ' '.join(calls) if calls else '')
             elif o == 'check':
                 st.checkCurrentSerialInTransaction(p64(int(tk[2])), p64(int(tk[3])), self.txn(int(tk[1])))
+                r = 'ok'
+            elif o == 'restore':
+                t = int(tk[1])
+                cid, args, tree = parse_rec(tk[3])
+                txn = self.txn(t)
+                if t not in self.begun:
+                    raise_txn_error(st, txn)
+                inner = getattr(st, 'changes', st)
+                st.restore(p64(int(tk[2])), inner._tid, make_pickle(cid, args, tree), '', None, txn)
                 r = 'ok'
             elif o == 'delete':
                 st.deleteObject(p64(int(tk[2])), p64(int(tk[3])), self.txn(int(tk[1])))
